@@ -18,11 +18,38 @@ KANI_TYPES_K1 = {'crate': 'kani/types_k1', 'kind': 'complete', 'parallel': 4, 'h
     {'name': 'proofs::word_from_bytes_slice_pads', 'claim': 'word_from_bytes_slice pads short slices with zeros and ignores bytes past 8'},
 ]}
 KANI_WORD_BYTES = {'crate': 'kani/types_k1', 'kind': 'complete', 'harnesses': [KANI_TYPES_K1['harnesses'][0]]}
+def _h(name, claim, bound=None, tier=None):
+    d = {'name': name, 'claim': claim}
+    if bound:
+        d['bound'] = bound
+    if tier:
+        d['tier'] = tier
+    return d
+
+_MAP = 'mapping succeeds exactly when the reference stream parse (asm.yml table) succeeds, same kind of error, same op offsets'
+_OPS = 'op(i) equals the i-th op of the reference parse for i < len and is None at len'
+KANI_VM_MAPPED = {'crate': 'kani/vm_k2', 'generate': asm_yaml.gen_kani_table, 'kind': 'bounded', 'parallel': 3, 'timeout_s': 2400, 'mem_gb': 20, 'harnesses': [
+    _h('proofs::map_len_2', _MAP, 'all byte strings of length 2'),
+    _h('proofs::ops_len_2', _OPS, 'all byte strings of length 2, every index 0..=len'),
+    _h('proofs::map_len_1', _MAP, 'all byte strings of length 1', 'thorough'),
+    _h('proofs::map_len_3', _MAP, 'all byte strings of length 3', 'thorough'),
+    _h('proofs::map_push_11', _MAP, 'Push opcode + 8 arbitrary immediate bytes + 2 arbitrary bytes', 'thorough'),
+    _h('proofs::map_push_truncated', _MAP, 'one arbitrary byte, a Push opcode and 0..8 immediate bytes (every truncation)', 'thorough'),
+    _h('proofs::ops_push_10', _OPS, '10-byte strings with a Push opcode at position 0 or 1', 'thorough')]}
+_JOIN = 'compute_effects: memory == old ++ children in index order, pc == max, halt == or, gas == checked sum (Err exactly on overflow)'
+KANI_VM_JOIN = {'crate': 'kani/vm_k2', 'generate': asm_yaml.gen_kani_table, 'kind': 'bounded', 'parallel': 3, 'timeout_s': 1800, 'mem_gb': 20, 'harnesses': [
+    _h('join::join_1_2_1', _JOIN, 'parent memory 1 word, two children with 2 and 1 words; contents, gas, pcs, halt flags symbolic'),
+    _h('join::join_0_1_0_2', _JOIN, 'empty parent memory, three children with 1, 0 and 2 words', 'thorough'),
+    _h('join::join_2_0_0', _JOIN, 'parent 2 words, two children with empty memories', 'thorough')]}
 KANI_ASM_EFFECTS = {'crate': 'kani/asm_k1', 'generate': asm_yaml.gen_kani_table, 'kind': 'complete', 'harnesses': [
     {'name': 'proofs::effects_api', 'claim': 'bitflags-generated Effects API (empty/all/bits/contains/union/|=/==, flag constants) has its documented bit-level meaning'}]}
+KANI_ASM_ANALYZE = {'crate': 'kani/asm_k1', 'generate': asm_yaml.gen_kani_table, 'kind': 'bounded', 'harnesses': [
+    {'name': 'proofs::analyze_len_7', 'bound': 'programs of at most 7 ops over the 6 effect ops, Pop and Push(any word)', 'playback': True,
+     'claim': 'analyze(ops).bits() == union of the effect flags of the ops'}]}
 KANI_ASM_BCA = {'crate': 'kani/asm_k1', 'generate': asm_yaml.gen_kani_table, 'kind': 'bounded', 'parallel': 6, 'timeout_s': 1500, 'harnesses':
     [_bca(10)] + [_bca(n, 'thorough') for n in (0, 1, 2, 3, 9, 11, 12, 18, 19, 20)]}
 KANI_ASM_CODEC = {'crate': 'kani/asm_k1', 'generate': asm_yaml.gen_kani_table, 'kind': 'complete', 'parallel': 2, 'timeout_s': 2400, 'harnesses': [
+    {'name': 'proofs::push_roundtrip', 'claim': 'Push(w) serialises to opcode + 8 big-endian bytes of w and parses back to Push(w), all words'},
     {'name': 'proofs::truncated_immediate', 'claim': 'empty input is None; opcode with immediates followed by fewer than 8 bytes is NotEnoughBytes; invalid byte is InvalidOpcode'},
     {'name': 'proofs::decode_then_encode_9', 'tier': 'thorough', 'claim': 'all [u8; 9]: parse fails exactly per asm.yml or yields the op asm.yml names for that byte, which serialises to exactly the consumed bytes'}]}
 
@@ -46,7 +73,7 @@ PROPS = {
             'explanation': 'decode_mutation(s) invert the spec encoders on every input; node_edges equals the documented sub-range; fixed-width conversions by complete Kani proofs'},
     'C16': {'level': 'proof', 'verus_units': ['check_core'],
             'explanation': 'validators accept exactly the documented limits (bi-implications)'},
-    'C04': {'level': 'proof', 'verus_units': ['check_core'],
+    'C04': {'level': 'proof', 'verus_units': ['check_core', 'hash_core'],
             'explanation': 'set validation verdict is a symmetric predicate of the solutions; one mutation per (contract, key) across the set'},
     'C01': {'level': 'other', 'verus_units': ['check_core'],
             'explanation': 'graph layer only: malformed graphs rejected (create_parent_map Ok <==> graph_ok), helpers panic-free on every graph; orchestration not covered'},
@@ -56,6 +83,7 @@ PROPS = {
             'explanation': 'the codec the proc-macro generated (macro-expanded text of the working tree) is verified against spec tables generated from asm.yml by an independent YAML reading: '
                            'opcode <-> byte tables, immediates, per-op encode/decode, the byte iterators; sequence-level round trips are Verus lemmas over those tables; pinned-table comparison'},
     'C15': {'level': 'proof', 'verus_units': ['asm_core'], 'kani': [KANI_ASM_EFFECTS, KANI_ASM_BCA],
+            'fallback': [{'when': 'effects::analyze', 'group': KANI_ASM_ANALYZE}],
             'explanation': 'analyze(ops) returns exactly the union of the effect flags of the ops (all slices); bytes_contains_any is outside Verus (by_ref/take/for_each) and checked bounded'},
     'C17': {'level': 'other', 'verus_units': ['hash_core'],
             'explanation': 'partial: solution-set address: the address slice is sorted in place (a permutation) before hashing and sorted arrangements of a multiset are unique, '
@@ -64,4 +92,13 @@ PROPS = {
             'not_covered': ['that the chunks fed to the hasher are the sorted addresses in order (Map adapter) - assumed', 'contract_addr::from_predicate_addrs_slice (chain + sort): assumed',
                             'encode_predicate against the documented layout (iterator chains; Kani harness exhausted memory: 65 GB): assumed', 'postcard serialisation and SHA-256: external',
                             'injectivity of the pre-hash encodings is not stated as an obligation']},
+    'C14': {'level': 'other', 'kani': [KANI_VM_MAPPED],
+            'explanation': 'bounded only (Kani on the real compiled crate): try_from_bytes uses enumerate/by_ref/map and op()/ops() closures with expect - outside Verus. '
+                           'Execution equivalence reduces to agreement of op access: Vm::exec is verified generically over OpAccess (C05/C07/C09).',
+            'not_covered': ['byte strings longer than the stated bounds', 'FromIterator / push_op (building from operations)', 'owned Vec<u8> container (same generic code path as &[u8])',
+                            'execution equivalence itself (parametricity argument, not an obligation)']},
+    'C10': {'level': 'other', 'verus_units': ['vm_core'], 'kani': [KANI_VM_JOIN],
+            'explanation': 'join step compute_effects bounded by Kani through a cfg(kani) hook; Vm::exec handling of ComputeEnd / compute results verified in Verus (vm_core); '
+                           'the fork (rayon, child initial state, depth and breadth checks in `compute`) is NOT covered',
+            'not_covered': ['compute(): rayon fork, child initial state, depth check, breadth check', 'thread schedules (C02)', 'memory shapes beyond the stated bounds', 'the combined-memory limit (a harness with a 10239-word parent crashed CBMC); Memory::alloc itself is Verus-verified to fail above the limit']},
 }
